@@ -208,8 +208,17 @@ ClassIncompat(vo, vn, ho, hn, acc) ==
 \* _function_incompatibilities restricted to the one parameter the catalogue touches (`*, opt=None`):
 \* removed unless swallowed / added as required never fire for an added optional keyword-only parameter
 \* and _returns_are_compatible: old None -> compatible; new None -> incompatible; otherwise compatible
+\* The functions f and bm are `def f(a, *, k=1)`; AddOptKw inserts the optional keyword-only parameter IN FRONT of
+\* the existing one: `def f(a, *, opt=None, k=1)` - k's index shifts, but the moved rule only looks at parameters
+\* whose kind is positional on both sides.
+FSig(v, d) == <<[n |-> "a", kind |-> "pk"]>> \o (IF d \in v.opt THEN <<[n |-> "opt", kind |-> "ko"]>> ELSE <<>>) \o <<[n |-> "k", kind |-> "ko"]>>
 FunctionIncompat(vo, vn, ho, hn, acc) ==
-  LET acc1 == IF ho.id \in vo.opt /\ hn.id \notin vn.opt THEN Yield(acc, "PARAMETER_REMOVED", hn) ELSE acc
+  LET so == FSig(vo, ho.id)
+      sn == FSig(vn, hn.id)
+      moved == \E i \in 1..Len(so), j \in 1..Len(sn) :
+                  so[i].n = sn[j].n /\ so[i].kind \in {"po", "pk"} /\ sn[j].kind \in {"po", "pk"} /\ i # j
+      acc0 == IF moved THEN Yield(acc, "PARAMETER_MOVED", hn) ELSE acc
+      acc1 == IF ho.id \in vo.opt /\ hn.id \notin vn.opt THEN Yield(acc0, "PARAMETER_REMOVED", hn) ELSE acc0
       returnsCompatible == IF ho.id \notin vo.ret THEN TRUE ELSE IF hn.id \notin vn.ret THEN FALSE ELSE TRUE
   IN IF ~returnsCompatible THEN Yield(acc1, "RETURN_CHANGED_TYPE", hn) ELSE acc1
 \* _attribute_incompatibilities
